@@ -773,6 +773,160 @@ def run_copies(ctx):
                       mechanism="arg:set_range-works")
     ctx.case(("arg-containers",))
     ctx.sample({"copy script": "NoteContainer(src); transpose/augment/set_velocity/add/remove on the copy; compare src"})
+    _random_copies(ctx)
+
+
+def _random_copies(ctx):
+    """The same questions on drawn objects: a copy and its source are changed by drawn operations in a drawn order, and
+    the arguments of constructors are drawn lists, nested lists and dictionaries."""
+    from mingus.containers import Note, NoteContainer, Bar, Track
+    rng = ctx.rng("copies")
+    names = list(T.pure_names(2))
+
+    def state(nc):
+        return [(n.name, n.octave, n.velocity, n.channel) for n in nc.notes]
+
+    def note_state(n):
+        return (n.name, n.octave, n.velocity, n.channel)
+
+    nc_ops = [("transpose 3", lambda c: c.transpose("3")), ("transpose b7 down", lambda c: c.transpose("b7", False)),
+              ("augment", lambda c: c.augment()), ("diminish", lambda c: c.diminish()),
+              ("velocities", lambda c: [n.set_velocity(1) for n in c.notes]), ("channels", lambda c: [n.set_channel(9) for n in c.notes]),
+              ("add", lambda c: c.add_note("D", 7)), ("remove first", lambda c: c.notes and c.remove_note(c.notes[0])),
+              ("empty", lambda c: c.empty()), ("octave_up", lambda c: [n.octave_up() for n in c.notes]),
+              ("rename", lambda c: [n.set_note("A", 1) for n in c.notes[:1]]), ("+", lambda c: c + "F#-2"), ("- first", lambda c: c.notes and c - c.notes[0]),
+              ("sort", lambda c: c.sort()), ("remove duplicates", lambda c: c.remove_duplicate_notes())]
+    for i in range(60):
+        src = NoteContainer()
+        for _ in range(rng.randint(1, 5)):
+            n = Note(rng.choice(names), rng.randint(1, 7))
+            n.velocity, n.channel = rng.randint(1, 127), rng.randint(1, 15)
+            src.add_note(n)
+        before = state(src)
+        route = rng.choice(["NoteContainer(src)", "NoteContainer(src.notes)", "add_notes(src)", "+ src", "add_notes(list)"])
+        if route == "NoteContainer(src)":
+            st, cp = ctx.call(NoteContainer, src)
+        elif route == "NoteContainer(src.notes)":
+            st, cp = ctx.call(NoteContainer, list(src.notes))
+        elif route == "add_notes(src)":
+            cp = NoteContainer()
+            st, _ = ctx.call(cp.add_notes, src)
+        elif route == "+ src":
+            cp = NoteContainer()
+            st, _ = ctx.call(cp.__add__, src)
+        else:
+            cp = NoteContainer()
+            st, _ = ctx.call(cp.add_notes, list(src.notes))
+        if st != "ok":
+            ctx.check("copies: a container built from another is a distinct object", False, {"source": before, "route": route}, "a container", "refused",
+                      mechanism="copy:route-refused")
+            continue
+        ctx.check("copies: a container built from another is a distinct object", cp is not src and cp.notes is not src.notes and state(cp) == before,
+                  {"source": before, "route": route}, before, state(cp), mechanism="copy:nc-object")
+        ops = [rng.choice(nc_ops) for _ in range(rng.randint(1, 4))]
+        # note objects handed over as such are the caller's own (the statement speaks of a container built from another):
+        # only the two routes that take a container are held to independence of the notes themselves
+        deep = route in ("NoteContainer(src)", "add_notes(src)", "+ src")
+        which = rng.choice(["copy", "source"])
+        tgt, other = (cp, src) if which == "copy" else (src, cp)
+        ob = state(other)
+        structural = ("add", "remove first", "empty", "+", "- first", "sort", "remove duplicates")
+        for (lab, op) in ops:
+            if not deep and lab not in structural:
+                continue
+            try:
+                op(tgt)
+            except Exception as e:
+                pass
+        ctx.check("copies: changing a container built from another leaves the original's notes unchanged" if which == "copy"
+                  else "copies: changing the original leaves the copy unchanged", state(other) == ob,
+                  {"source": before, "route": route, "changed": which, "operations": [l for l, _ in ops]}, ob, state(other),
+                  mechanism="copy:nc-%s-%s" % (which, "notes" if deep else "list"))
+        ctx.case(("copy-random", route, which, tuple(l for l, _ in ops)))
+    # notes from notes, every route
+    for i in range(60):
+        a = Note(rng.choice(names), rng.randint(0, 8))
+        a.velocity, a.channel = rng.randint(1, 127), rng.randint(1, 15)
+        before = note_state(a)
+        route = rng.choice(["Note(a)", "set_note(a)", "Note(str(a))"])
+        if route == "Note(a)":
+            st, b = ctx.call(Note, a)
+        elif route == "set_note(a)":
+            b = Note("C", 4)
+            st, _ = ctx.call(b.set_note, a)
+        else:
+            st, b = ctx.call(Note, "%s-%d" % (a.name, a.octave))
+        if st != "ok":
+            continue
+        which = rng.choice(["copy", "source"])
+        tgt, other = (b, a) if which == "copy" else (a, b)
+        ob = note_state(other)
+        for _ in range(rng.randint(1, 3)):
+            k = rng.randrange(7)
+            if k == 0:
+                tgt.transpose(rng.choice(["2", "b3", "5", "#4", "7"]), rng.random() < 0.5)
+            elif k == 1:
+                tgt.augment() if rng.random() < 0.5 else tgt.diminish()
+            elif k == 2:
+                tgt.set_velocity(rng.randint(1, 127))
+            elif k == 3:
+                tgt.set_channel(rng.randint(1, 15))
+            elif k == 4:
+                tgt.octave_up() if rng.random() < 0.5 else tgt.octave_down()
+            elif k == 5:
+                tgt.from_int(rng.randint(0, 100))
+            else:
+                tgt.change_octave(rng.randint(-2, 2))
+        ctx.check("copies: changing a note built from another leaves the original unchanged", note_state(other) == ob,
+                  {"note": before, "route": route, "changed": which}, ob, note_state(other), mechanism="copy:note-%s" % which)
+        ctx.case(("copy-note-random", route, which))
+    # drawn arguments: flat and nested lists, with and without dynamics
+    for i in range(40):
+        lst = []
+        for _ in range(rng.randint(1, 4)):
+            k = rng.randrange(4)
+            nm, o = rng.choice(names), rng.randint(1, 7)
+            lst.append(nm if k == 0 else "%s-%d" % (nm, o) if k == 1 else [nm, o] if k == 2 else [nm, o, {"velocity": rng.randint(1, 127)}])
+        for (lab, use) in (("NoteContainer", lambda x: NoteContainer(x)), ("add_notes", lambda x: NoteContainer().add_notes(x)),
+                           ("remove_notes", lambda x: NoteContainer(["C", "E"]).remove_notes([y for y in x if isinstance(y, str)])),
+                           ("Bar.place_notes", lambda x: Bar().place_notes([y for y in x if isinstance(y, str)], 4)),
+                           ("Track.add_notes", lambda x: Track().add_notes([y for y in x if isinstance(y, str)], 4)),
+                           ("Bar + list", lambda x: Bar() + [y for y in x if isinstance(y, str)])):
+            arg = copy.deepcopy(lst)
+            if lab in ("remove_notes", "Bar.place_notes", "Track.add_notes", "Bar + list"):
+                arg = [y for y in arg if isinstance(y, str)]
+                given = list(arg)
+                holder = {"a": arg}
+                try:
+                    {"remove_notes": lambda: NoteContainer(["C", "E"]).remove_notes(holder["a"]),
+                     "Bar.place_notes": lambda: Bar().place_notes(holder["a"], 4),
+                     "Track.add_notes": lambda: Track().add_notes(holder["a"], 4),
+                     "Bar + list": lambda: Bar() + holder["a"]}[lab]()
+                except Exception:
+                    pass
+                ctx.check("copies: a list passed to a library call is not modified", arg == given, {"call": lab, "list": given}, given, arg,
+                          mechanism="arg:" + lab)
+            else:
+                given = copy.deepcopy(arg)
+                try:
+                    use(arg)
+                except Exception:
+                    pass
+                ctx.check("copies: a list passed to %s is not modified" % lab, arg == given, {"list": given}, given, arg, mechanism="arg:" + lab)
+        ctx.case(("arg-random", len(lst)))
+    # meters given as lists
+    for i in range(30):
+        m = [rng.randint(1, 12), rng.choice([1, 2, 4, 8, 16, 32])]
+        ml = list(m)
+        b1 = Bar("C", ml)
+        b2 = Bar("F", (4, 4))
+        b2.set_meter(ml)
+        ml[0] += 1
+        ml.append(3)
+        ok = tuple(b1.meter) == tuple(m) and tuple(b2.meter) == tuple(m) and abs(b1.length - m[0] / m[1]) < 1e-12 and abs(b2.length - m[0] / m[1]) < 1e-12
+        ctx.check("copies: a list passed as a meter is neither kept nor modified", ok, {"meter_list": m}, [tuple(m), m[0] / m[1]],
+                  [b1.meter, b2.meter, b1.length, b2.length], mechanism="arg:meter-random")
+        ctx.case(("meter-random", tuple(m)))
 
 
 # ------------------------------------------------------------------------------- lookups
